@@ -342,6 +342,25 @@ func (in *Interp) RunLit(lit *ast.FuncLit, entry *State) *State {
 	return out
 }
 
+// RunStmts interprets a statement list (a switch arm, a loop body) as a frame of its own and
+// returns the state at its end joined with the states at `continue`/`break` that leave it;
+// `return` statements inside are reported through Hooks.Exit and do not contribute.
+func (in *Interp) RunStmts(list []ast.Stmt, entry *State) *State {
+	if entry == nil {
+		entry = NewState()
+	}
+	fr := &frame{}
+	in.frames = append(in.frames, fr)
+	saved := in.targets
+	in.targets = nil
+	t := in.push("", true)
+	end := in.block(list, entry.Clone())
+	end = Join(end, Join(t.contAcc, t.breakAcc))
+	in.targets = saved
+	in.frames = in.frames[:len(in.frames)-1]
+	return end
+}
+
 // RunFunc is the one-shot form of NewInterp+Run.
 func RunFunc(fi *FuncInfo, entry *State, h Hooks) (*State, *Interp) {
 	in := NewInterp(fi)
